@@ -155,6 +155,12 @@ class Writer:
         self.marks.append((len(self.out), ctx))
         self.out.append(ind + text)
 
+    def dot(self):
+        """the dot of a qualified name in a table header or a reference endpoint: blanks may surround it there"""
+        if self.k['spaces'] == 'random' and self.rng.random() < 0.08:
+            return self.rng.choice([' . ', '. ', ' .', '  .  '])
+        return '.'
+
     def opsp(self):
         """blank(s) around a reference operator; sometimes none at all (`a.x>b.y`, `a.x-b.y`, `ref:>t.c`)"""
         if self.k['spaces'] == 'random' and self.rng.random() < 0.12:
@@ -254,7 +260,7 @@ class Writer:
         return self.trailing(text)
 
     # ------------------------------------------------------------------ names
-    def table_ref(self, doc, ti):
+    def table_ref(self, doc, ti, pad=False):
         t = doc.tables[ti]
         opts = []
         if t.schema == 'public':
@@ -272,7 +278,7 @@ class Writer:
             return self.ident(t.name)
         if how == 'alias':
             return self.ident(t.alias)
-        return self.ident(t.schema) + '.' + self.ident(t.name)
+        return self.ident(t.schema) + (self.dot() if pad else '.') + self.ident(t.name)
 
     def qual(self, schema, name):
         if schema == 'public' and (self.k['addr'] == 'canon' or self.rng.random() < 0.7):
@@ -329,7 +335,7 @@ class Writer:
 
     def inline_ref(self, doc, r):
         return (self.kw('ref:') + self.opsp() + (self.fault('lit:refop') or r.kind) + self.opsp()
-                + self.table_ref(doc, r.target) + '.' + self.ident(r.col))
+                + self.table_ref(doc, r.target, pad=True) + self.dot() + self.ident(r.col))
 
     def trailing(self, text):
         """am comment written at the end of the element's line (single line only)"""
@@ -420,7 +426,7 @@ class Writer:
         self.comment_lines('top', t.comment)
         head = self.kw('Table') + self.sp()
         head += self.ident(t.name) if t.schema == 'public' and (self.k['addr'] == 'canon' or self.rng.random() < 0.8) \
-            else self.ident(t.schema) + '.' + self.ident(t.name)
+            else self.ident(t.schema) + self.dot() + self.ident(t.name)
         if t.alias:
             head += self.sp() + self.kw('as') + self.sp() + self.ident(t.alias)
         note_pos = self.k['note_pos']
@@ -497,11 +503,11 @@ class Writer:
         self.emit('enum_body', self.br('}', 'enum_body'))
 
     def endpoint(self, doc, ti, cols):
-        tr = self.table_ref(doc, ti)
+        tr = self.table_ref(doc, ti, pad=True)
         if len(cols) == 1 and self.rng.random() < 0.9:
-            return tr + '.' + self.ident(cols[0])
+            return tr + self.dot() + self.ident(cols[0])
         pad = '' if self.k['spaces'] == 'one' or self.rng.random() < 0.6 else ' '       # `t.( a, b )`
-        return tr + '.(' + pad + (',' + self.sp()).join(self.ident(c) for c in cols) + pad + ')'
+        return tr + self.dot() + '(' + pad + (',' + self.sp()).join(self.ident(c) for c in cols) + pad + ')'
 
     def ref(self, doc, r):
         tail = self.place_comment('top', r.comment)
